@@ -1,6 +1,7 @@
 /-
 Line-protocol handler for bytecode generation: `bcgen <w> <nregs> <fuse 0/1> <ir text>` replies with the
-bytecode text of `BcGen.translate` (format of `Driver3.encodeBc`).
+bytecode text of `BcGen.translate` (format of `Driver3.encodeBc`), or `panic:<site>` where the model
+records that the Rust would panic.
 -/
 import Hpbf.Driver3
 import Hpbf.BcGen
@@ -8,8 +9,20 @@ import Hpbf.BcGen
 namespace Hpbf
 namespace Driver4
 
+def bcgen (ws nr fz : String) (rest : List String) : Option String := do
+  let w ← ws.toNat?
+  let nregs ← nr.toNat?
+  let fuse ← Driver.boolOf fz
+  let b ← Driver3.decodeBlock w (" ".intercalate rest)
+  match BcGen.translateE b nregs fuse with
+  | .ok p => some (Driver3.encodeBc p)
+  | .error e => some ("panic:" ++ e)
+
 def handle (line : String) : String :=
-  Driver3.handle line
+  let toks := (line.splitOn " ").filter (· ≠ "")
+  match toks with
+  | "bcgen" :: ws :: nr :: fz :: rest => (bcgen ws nr fz rest).getD "bad-request"
+  | _ => Driver3.handle line
 
 end Driver4
 end Hpbf
